@@ -569,6 +569,49 @@ func c03r3(c *core.Ctx) {
 			c.Check(ok, "write:VerifySession."+fld+"@"+fname(f), st.Pos(), "written only by its designated method", "VerifySession."+fld+" is written outside its designated method")
 		}
 	}
+	// the start handler performs the key agreement with the key the controller sent, before it seals its answer
+	if start != nil {
+		var gen, setup ssa.Instruction
+		core.Instrs(start, func(i ssa.Instruction) {
+			if core.IsCall(i, "(*"+tVerifySess+").GenerateSharedKeyWithOtherPublicKey") {
+				gen = i
+			}
+			if core.IsCall(i, "(*"+tVerifySess+").SetupEncryptionKey") {
+				setup = i
+			}
+		})
+		fromRequest := false
+		if gen != nil {
+			// argument: a local array filled by copy(arr[:], <TLV item 3 of the request>)
+			if a := allocOf(core.Args(gen)[0]); a != nil {
+				core.Instrs(start, func(i ssa.Instruction) {
+					call, ok := i.(*ssa.Call)
+					if !ok {
+						return
+					}
+					if b, isB := call.Call.Value.(*ssa.Builtin); isB && b.Name() == "copy" && allocOf(call.Call.Args[0]) == a {
+						if _, _, tag, ok := tlvRead(call.Call.Args[1]); ok && tag == 3 {
+							fromRequest = true
+						}
+					}
+				})
+			}
+			for _, src := range core.Sources(core.Args(gen)[0]) {
+				if _, _, tag, ok := tlvRead(src); ok && tag == 3 {
+					fromRequest = true
+				}
+			}
+		}
+		order := gen != nil && setup != nil && instrDominates(gen, setup)
+		for _, sl := range core.FindCalls(start, isSealCall) {
+			if setup == nil || !instrDominates(setup, sl) {
+				order = false
+			}
+		}
+		c.Check(gen != nil && setup != nil && fromRequest && order, "key-agreement-performed@"+fname(start), start.Pos(),
+			"the shared key is computed from the controller's public key item, then the encryption key, then the answer is sealed",
+			"the start handler does not (in this order) compute the shared key from the controller's public key item, derive the encryption key and seal: both ends hold different keys (or a key derived from zeros)")
+	}
 	// those methods are called only from the start handler (server side)
 	for _, f := range libFuncs(p) {
 		if !core.TypeIs(recvType(f), tVerifyCtrl) {
@@ -600,7 +643,7 @@ func c03r3(c *core.Ctx) {
 					// same controller value as the one whose Handle produced the response
 					same := false
 					core.Instrs(ep, func(i ssa.Instruction) {
-						if core.IsInvoke(i, mod+"/hap.PairVerifyHandler", "Handle") && sameValue(core.Receiver(i), l.val(kc.Call.Value)) {
+						if (core.IsInvoke(i, mod+"/hap.PairVerifyHandler", "Handle") || core.IsInvoke(i, mod+"/hap.ContainerHandler", "Handle")) && sameValue(core.Receiver(i), l.val(kc.Call.Value)) {
 							same = true
 						}
 					})
